@@ -87,7 +87,7 @@ Theorem C06_source_block_arithmetic_is_the_model off n bs ov u :
    gen_in_lo u bs ov off (off + n) = in_lo b /\ gen_in_lo u bs ov off (off + n) + gen_in_len u bs ov off (off + n) = in_hi b /\
    gen_out_lo u bs ov off (off + n) = out_lo b /\ gen_out_lo u bs ov off (off + n) + gen_out_len u bs ov off (off + n) = out_hi b /\
    gen_outer_hi_term u bs ov off (off + n) = in_hi b) /\
-  (gen_rows_outer_bands_outermost = true /\ gen_block_pair_fields_ok = true /\ gen_outer_ok = true /\ gen_block_guard_ok = true /\
+  (gen_rows_outer_bands_outermost = true /\ gen_block_pair_fields_ok = true /\ gen_outer_ok = true /\
    gen_other_in_ok = true /\ gen_other_out_ok = true /\ gen_fuse_passes_overlap = true /\ gen_compare_no_overlap = true).
 Proof. exact (blocks_tied off n bs ov u). Qed.
 Print Assumptions C06_source_block_arithmetic_is_the_model.
